@@ -7,6 +7,7 @@ import (
 	"math"
 	"reflect"
 	"sort"
+	"sync"
 
 	"github.com/bmeg/grip/engine/logic"
 	"github.com/bmeg/grip/gdbi"
@@ -934,23 +935,49 @@ func (b both) Process(ctx context.Context, man gdbi.Manager, in gdbi.InPipe, out
 		for i, p := range procs {
 			p.Process(ctx, man, chanIn[i], chanOut[i])
 		}
-		for t := range in {
-			if t.IsSignal() {
-				out <- t
-				continue
+		// feed the sub-steps from their own goroutine: their outputs are read while the input is
+		// still arriving, so no buffer between here and there can fill up for good
+		fed := make(chan struct{})
+		go func() {
+			defer close(fed)
+			for t := range in {
+				if t.IsSignal() {
+					out <- t
+					continue
+				}
+				for _, ch := range chanIn {
+					ch <- t
+				}
 			}
 			for _, ch := range chanIn {
-				ch <- t
+				close(ch)
 			}
+		}()
+		// the first sub-step's results are passed on as they come; the results of the others are
+		// held back until it has ended, which keeps the order of the output
+		held := make([][]gdbi.Traveler, len(procs))
+		var wg sync.WaitGroup
+		for i := 1; i < len(procs); i++ {
+			wg.Add(1)
+			go func(i int) {
+				defer wg.Done()
+				for c := range chanOut[i] {
+					held[i] = append(held[i], c)
+				}
+			}(i)
 		}
-		for _, ch := range chanIn {
-			close(ch)
-		}
-		for i := range procs {
-			for c := range chanOut[i] {
+		if len(procs) > 0 {
+			for c := range chanOut[0] {
 				out <- c
 			}
 		}
+		wg.Wait()
+		for i := 1; i < len(procs); i++ {
+			for _, c := range held[i] {
+				out <- c
+			}
+		}
+		<-fed
 	}()
 	return ctx
 }
